@@ -1,5 +1,6 @@
 import BoxoModel.C16.Lemmas
 import BoxoModel.C16.DirLemmas
+import BoxoModel.C16.RuleLemmas
 /-!
 # C16 — Directory root CID depends only on final entries and configuration
 
@@ -11,8 +12,11 @@ shard width and the stat of the root; the CID is an arbitrary function `H` of th
 Status of the clauses (see docs/notes/C16.md and known_findings.jsonl):
 * pure HAMT: full (`c16_hamt_canonical`, `c16_canonical_unique`, `c16_hamt_history_independent`);
 * settings across conversions: full for the repaired code (`c16_settings_preserved`, fix a7f55dc);
-* "sharded exactly when the rule says so" for the auto-switching directory: NOT a theorem of the
-  current code (known findings rule-hamt-below, rule-basic-above-by-prefix, hamt-switch-maxlinks);
+* "sharded exactly when the rule says so" for the auto-switching directory: a theorem only for the
+  basic → HAMT direction (`c16_rule_partial`: a basic directory with exact bookkeeping — in particular
+  every history of AddChild calls from a fresh directory until it is first sharded — is converted
+  exactly when the rule holds for the new entry set).  The HAMT → basic direction is NOT a theorem of
+  the current code (known findings rule-hamt-below, rule-basic-above-by-prefix, hamt-switch-maxlinks);
   the model reproduces the code's behaviour and the divergence is exhibited by the harness replays.
 -/
 namespace C16
@@ -90,6 +94,55 @@ theorem c16_settings_preserved_run (h : Name → List Byte) (g : Globals) (ops :
       simp only [dstep, eachChild]
       cases st with
       | mk dyn dir => cases dir <;> rfl
+
+/-- **The rule, basic → HAMT direction** (guard: the directory is currently basic and its bookkeeping
+`estimatedSize` / `totalLinks` is exact, `BasicExact`; estimation mode one of the three defined).
+`Rule` = switching enabled ∧ (size estimate of the NEW entry list above the threshold, in links or
+block mode) ∨ (more entries than the link limit).  AddChild then (1) shards the directory iff the
+rule holds for the entry list it produces (or fails without changing anything), and (2) otherwise
+performs the edit on the basic directory, keeps every setting and re-establishes `BasicExact` — so
+the statement extends by induction to every AddChild history that has not yet been sharded. -/
+theorem c16_rule_partial (h : Name → List Byte) (g : Globals) (b : Basic) (n : Name) (l : Lnk)
+    (hx : BasicExact g b) (hm : b.s.effMode g ≤ 2) :
+    (Rule g b.s (b.links.filter (·.1 ≠ n) ++ [(n, l)]) →
+      (∃ hd, (addChild h g { dyn := true, dir := .basic b } n l).1.dir = .hamt hd) ∨
+      ((addChild h g { dyn := true, dir := .basic b } n l).1 = { dyn := true, dir := .basic b } ∧
+        (addChild h g { dyn := true, dir := .basic b } n l).2 ≠ .ok)) ∧
+    (¬ Rule g b.s (b.links.filter (·.1 ≠ n) ++ [(n, l)]) →
+      (∃ b', (addChild h g { dyn := true, dir := .basic b } n l).1.dir = .basic b' ∧
+        (addChild h g { dyn := true, dir := .basic b } n l).2 = .ok ∧
+        b'.links = b.links.filter (·.1 ≠ n) ++ [(n, l)] ∧ b'.s = b.s ∧ BasicExact g b') ∨
+      (b.s.effThr g = 0 ∧ (addChild h g { dyn := true, dir := .basic b } n l).2 = .maxlinks ∧
+        (addChild h g { dyn := true, dir := .basic b } n l).1 = { dyn := true, dir := .basic b })) :=
+  rule_step h g b n l hx hm
+
+/-- a freshly created directory satisfies the guard of `c16_rule_partial` -/
+theorem c16_fresh_exact (g : Globals) (s : Settings) (b : Basic) (hn : Basic.new g s = some b) : BasicExact g b := by
+  have hcomp : ∀ b0 : Basic, b0.links = [] →
+      b0.compute g = ((if b0.s.effMode g = 1 then ((dataFieldSize b0.s.stat : Nat) : Int) else 0), 0) := by
+    intro b0 h0
+    simp only [Basic.compute, h0, List.map_nil, List.sum_nil, List.length_nil]
+    by_cases h1 : b0.s.effMode g = 1
+    · simp [h1]
+    · by_cases h00 : b0.s.effMode g = 0 <;> simp [h1, h00]
+  simp only [Basic.new] at hn
+  split at hn
+  · cases hn
+  · simp only [Option.some.injEq] at hn
+    generalize hb0 : ({ links := [], nodeStat := s.stat, s := { s with fanout := (if s.fanout = 0 then g.defWidth else s.fanout), builder := (if s.builder = "nil" then "v0" else s.builder) } } : Basic) = b0 at hn
+    have hl0 : b0.links = [] := by rw [← hb0]
+    rw [hcomp b0 hl0] at hn
+    have hl : b.links = [] := by rw [← hn]
+    have hs : b.s = b0.s := by rw [← hn, ← hb0]
+    have he : b.est = (if b0.s.effMode g = 1 then ((dataFieldSize b0.s.stat : Nat) : Int) else 0) := by rw [← hn]
+    have ht : b.total = 0 := by rw [← hn]
+    refine ⟨by simp [hl], by simp [hl, ht], ?_, by intro hp; rw [ht]; omega⟩
+    rw [he, hs]
+    simp only [C15.sizeOf, hl, List.map_nil, List.sum_nil]
+    by_cases h2 : b0.s.effMode g = 2
+    · have : ¬ b0.s.effMode g = 1 := by rw [h2]; decide
+      simp [h2, this]
+    · simp [h2]
 
 /-! Non-vacuity: the collapse on removal makes "insert a, b, c; remove c" equal to "insert b, a". -/
 section examples
